@@ -681,10 +681,98 @@ def run_queue_shapes(ctx: Ctx, rec: Recorder) -> None:
             pm.clear()
 
 
+def run_manager_sequential(ctx: Ctx, rec: Recorder) -> None:
+    """Sequential histories of pool look-ups on a PoolManager and on a forwarding / tunnelling ProxyManager, through every
+    entry point (connection_from_url / _host / _context, request), compared step by step with the LRU model: the cache
+    holds exactly the model's keys in the model's order, the pool handed out is the cached one, equal parameters give the
+    same object until the model evicts it (what happens to an evicted pool's sockets is the queue-shape sweep's matter).  No network: look-ups open no socket."""
+    import random
+
+    import urllib3
+
+    rng = random.Random(ctx.seed * 7919 + ctx.shard)
+    dests = ["http://a.test/", "http://b.test/", "http://c.test:8080/", "https://d.test/", "https://e.test/", "https://a.test/", "http://A.test:80/x"]
+    for it in range(ctx.pick(400, 6000)):
+        if not ctx.mine(it):
+            continue
+        kind = ("plain", "proxy")[it % 2]
+        num_pools = rng.choice([1, 2, 2, 3, 4])
+        pm: typing.Any = urllib3.PoolManager(num_pools=num_pools) if kind == "plain" else urllib3.ProxyManager("http://proxy.test:3128", num_pools=num_pools)
+        model = LRU(num_pools)
+        last: dict[typing.Any, typing.Any] = {}
+        every: list[typing.Any] = []  # every pool ever handed out, with its model key
+        steps: list[list[typing.Any]] = []
+        case = {"mode": "manager-sequential", "kind": kind, "num_pools": num_pools, "steps": steps}
+        rec.case(["manager-sequential", kind, num_pools, it])
+        ok = True
+        for _ in range(rng.randrange(3, 14)):
+            url = rng.choice(dests)
+            how = rng.choice(["url", "url", "host", "context", "clear"] if len(steps) > 2 else ["url", "host", "context"])
+            steps.append([how, url])
+            rec.mon("manager_lookup")
+            if how == "clear":
+                pm.clear()
+                model.apply("clear")
+                last.clear()
+            else:
+                u = urllib3.util.parse_url(url)
+                port = u.port or {"http": 80, "https": 443}[u.scheme]
+                # which cache entry serves this destination: behind a proxy every plain-http destination shares the pool
+                # of connections to the proxy, https destinations are tunnelled one pool per origin
+                mkey = ("proxy",) if (kind == "proxy" and u.scheme == "http") else (u.scheme, u.host.lower(), port)
+                if how == "url":
+                    pool = pm.connection_from_url(url)
+                elif how == "host":
+                    pool = pm.connection_from_host(u.host, u.port, u.scheme)
+                else:
+                    ctxd = pm._merge_pool_kwargs(None)
+                    if kind == "proxy" and u.scheme == "http":
+                        ctxd.update(scheme="http", host="proxy.test", port=3128)
+                    else:
+                        ctxd.update(scheme=u.scheme, host=u.host, port=port)
+                    pool = pm.connection_from_context(ctxd)
+                had = any(kk == mkey for kk, _ in model.items)
+                if had:
+                    model.apply("get", mkey)
+                else:
+                    model.apply("set", mkey, id(pool))
+                obs = {"kind": kind, "num_pools": num_pools, "how": how, "url": url, "step": len(steps) - 1}
+                if had and pool is not last.get(mkey):
+                    rec.fail(case, "same-key-different-pools", obs, f"step {len(steps) - 1}: {how}({url}) returned another pool object although the pool for these parameters is still cached")
+                    ok = False
+                    break
+                if not had and any(pool is pp for pp, _ in every):
+                    rec.fail(case, "evicted-pool-handed-out-again", obs, f"step {len(steps) - 1}: {how}({url}) returned a pool object that had been evicted / cleared")
+                    ok = False
+                    break
+                last[mkey] = pool
+                every.append((pool, mkey))
+                cached = list(pm.pools._container.values())
+                if not any(pool is c for c in cached):
+                    rec.fail(case, "pool-in-use-not-in-cache", obs, f"step {len(steps) - 1}: the pool handed out by {how}({url}) is not in the manager's cache ({len(cached)} cached pools)")
+                    ok = False
+                    break
+            # cache content and order against the model
+            cached = list(pm.pools._container.values())
+            want = [last[kk] for kk, _ in model.items]
+            if len(cached) > num_pools:
+                rec.fail(case, "more-than-num-pools", {"kind": kind, "n": len(cached), "num_pools": num_pools}, f"{len(cached)} pools cached, num_pools={num_pools}")
+                ok = False
+                break
+            if len(cached) != len(want) or any(a is not b for a, b in zip(cached, want)):
+                rec.fail(case, "cache-differs-from-lru-model", {"kind": kind, "num_pools": num_pools, "step": len(steps) - 1, "cached": [f"{c.scheme}://{c.host}:{c.port}" for c in cached], "model": [list(kk) for kk, _ in model.items]}, f"after step {len(steps) - 1} the cache holds {[f'{c.scheme}://{c.host}:{c.port}' for c in cached]}, the LRU model {[kk for kk, _ in model.items]}")
+                ok = False
+                break
+            if not ok:
+                break
+        pm.clear()
+
+
 def run_shard(ctx: Ctx, rec: Recorder) -> None:
     import random
 
     run_queue_shapes(ctx, rec)
+    run_manager_sequential(ctx, rec)
     run_sequential(ctx, rec)
     # (ii) container under the scheduler
     ccfgs = container_configs()
